@@ -90,16 +90,18 @@ theorem C10_create_sub (sys : Sys) (rawN rawT : Bytes) (ack : Int) (sn tn : Name
     simp only
     rw [find?_append_new _ _ _ (by simp) hfs]; rfl
 
-/-- Read back: GetSubscription reports the name, the effective ack deadline and the push
+/-- Read back: GetSubscription changes no name, attachment, resource or registry entry (`skel`; it is
+    a mailbox turn of the subscription actor, so deliveries whose deadline has passed are requeued) and reports the name, the effective ack deadline and the push
     configuration stored at creation, and the topic it was created on (or `_deleted_topic_`). -/
 theorem C10_readback (sys : Sys) (raw : Bytes) (n : Name) (e : SubEnt) (hp : parseSubName raw = some n)
     (hf : sys.findSub n = some e) :
-    sys.rpc (.getSub raw) = (sys, .sub (sys.subRes e)) ∧ (sys.subRes e).name = displaySub e.name ∧
+    (sys.rpc (.getSub raw)).2 = .sub (sys.subRes e) ∧ (sys.rpc (.getSub raw)).1.skel = sys.skel ∧
+    (sys.subRes e).name = displaySub e.name ∧
     (sys.subRes e).ackSecs = e.ackSecs ∧ (sys.subRes e).push = e.push ∧
     (sys.subRes e).topic = (match sys.findTopicById e.topicId with
         | some t => displayTopic t.name
         | none => deletedTopicStr) := by
-  refine ⟨by simp [Sys.rpc, hp, hf], rfl, rfl, rfl, rfl⟩
+  refine ⟨by simp [Sys.rpc, hp, hf], by simp [Sys.rpc, hp, hf], rfl, rfl, rfl, rfl⟩
 
 /-- Delete makes the name absent (names are unique: `hu`, an invariant of the manager map). -/
 theorem C10_delete_topic (sys : Sys) (raw : Bytes) (n : Name) (t : TopicEnt) (hp : parseTopicName raw = some n)
